@@ -806,7 +806,7 @@ func init() {
 
 	register(&Rule{
 		Name:  "POOL-SCRATCH",
-		Floor: 2,
+		Floor: 1,
 		Doc:   "every scratch object taken from visitDocumentCtxPool is returned by a deferred Put registered right after the Get (so it is per-call for the whole call, including nested visits), and is never stored into shared memory (covered by SHARED-WRITE)",
 		Run: func(c *Ctx, scope string, r *Report) {
 			pool := c.Global("visitDocumentCtxPool")
